@@ -85,6 +85,14 @@ Theorem C13_reconnect_after_k_failures : forall t0 p r bo,
   deadline < start /\ start <= r + bo + 2 * p.
 Proof. exact reconnect_bound. Qed.
 
+(** The node's connection limit plays no part in background dialing (the limit governs inbound
+    admission, C10): a check depends on the connected set only through whether the known peers
+    themselves are connected; connections to anybody else, however many, change nothing. *)
+Theorem C13_other_connections_irrelevant : forall c now res known active active' out s,
+  (forall pi, In pi known -> memN (pi_id pi) active = memN (pi_id pi) active') ->
+  check c now res known active out s = check c now res known active' out s.
+Proof. exact check_other_connections_irrelevant. Qed.
+
 Example C13_ex :
   let c := mkCfg 1 10 25 2 in
   let known := [mkPeer 2 High [100; 101]; mkPeer 3 Allowed [7]; mkPeer 1 High [9]; mkPeer 4 High []; mkPeer 5 High [50]] in
@@ -107,3 +115,4 @@ Print Assumptions C13_rotation.
 Print Assumptions C13_redial_after_success.
 Print Assumptions C13_connects_within_one_period.
 Print Assumptions C13_reconnect_after_k_failures.
+Print Assumptions C13_other_connections_irrelevant.
